@@ -155,3 +155,40 @@ def import_all_artap():
               "algorithm_genetic", "algorithm_NSGAII", "algorithm_swarm", "algorithm_sweep",
               "utils", "doe", "results", "quality_indicator", "surrogate"):
         importlib.import_module("artap." + m)
+
+
+class ActiveJobs:
+    """Counts Job.evaluate activations that are still running (worker threads of an aborted parallel batch keep going after the
+    caller got its exception).  wait_idle() lets a case make sure nothing of an earlier batch is still executing."""
+
+    def __init__(self):
+        from artap.job import Job
+        self.Job = Job
+        self.lock = threading.Lock()
+        self.active = 0
+        self.orig = Job.evaluate
+        outer = self
+
+        def evaluate(job_self, individual, *a, **kw):
+            with outer.lock:
+                outer.active += 1
+            try:
+                return outer.orig(job_self, individual, *a, **kw)
+            finally:
+                with outer.lock:
+                    outer.active -= 1
+        functools.update_wrapper(evaluate, self.orig)
+        Job.evaluate = evaluate
+
+    def wait_idle(self, timeout=60.0):
+        import time
+        t_end = time.time() + timeout
+        while time.time() < t_end:
+            with self.lock:
+                if self.active == 0:
+                    return True
+            time.sleep(0.002)
+        return False
+
+    def restore(self):
+        self.Job.evaluate = self.orig
